@@ -149,6 +149,16 @@ def check_naming_adds_no_literal(S, rule):
             fr = re.sub(r"\{[^{}]*\}", "", lit_str(e["args"][0]))
             if fr:
                 lits.append("format!(%r)" % lit_str(e["args"][0]))
+    # ... and the words of the name are found by serde's rule (RenameRule::*.apply_to_field / apply_to_variant), not by a splitter written here: a
+    # hand-written split on '_' with per-word capitalisation disagrees with serde on leading / doubled underscores (`_window_label`)
+    hand = sorted({e["method"] for e in walk_block(anc.body) if e.get("k") == "mcall" and e["method"] in ("split", "split_terminator", "to_ascii_uppercase", "to_uppercase", "split_inclusive", "char_indices")})
+    lib = any(e.get("k") == "mcall" and e["method"] in ("apply_to_field", "apply_to_variant") for e in walk_block(anc.body))
+    if hand or not lib:
+        rule.bad(V(rule.id, "NamingContext::apply_naming_convention", "hand-written-case-conversion:%s" % (",".join(hand) or "no-serde-rule"),
+                   "apply_naming_convention converts names with its own %s instead of serde's rename rule: keys differ from what Tauri/serde compute for names with "
+                   "leading or repeated underscores" % (", ".join(hand) or "code")))
+    else:
+        rule.ok("apply_naming_convention: word splitting and casing by serde's rename rule")
     if lits:
         rule.bad(V(rule.id, "NamingContext::apply_naming_convention", "naming-adds-literal:%s" % ",".join(sorted(lits)),
                    "apply_naming_convention adds literal text (%s) to the converted name: every key and name built from it changes, not only the one it was meant for" % ", ".join(sorted(lits))))
